@@ -20,15 +20,16 @@ X64 = False
 RULE = (
     "complete enumeration of temporal/spatial/border batch sizes in {1,2,3}^3 (equal sizes in pairing mode) x dim in {1,2} x "
     "{cartesian, paired} x 2 store-size variants x 3 keys x {eager, jit}; per configuration the get_batch history of the "
-    "given depth (crossing a reshuffle of each store) is executed and every batch decomposed.  Non-trivial = batch with "
+    "given depth (crossing a reshuffle of each store) is executed and every batch decomposed; plus one draw for every (temporal, "
+    "spatial) batch-size pair up to the sweep bound (12 quick, 24 thorough).  Non-trivial = batch with "
     "at least 2 time and 2 space rows (orders distinguishable); distinct by (dim, mode, sizes, variant, exec mode)."
 )
 ASSUMPTIONS = [
     "points are identified by value (uniform samples; time interval disjoint from the spatial box)",
     "3 PRNG keys per configuration (one derived from VERIF_SEED)",
-    "batch sizes <= 3 per factor",
+    "batch sizes <= 3 (thorough 4) per factor for the histories, <= 12 (thorough 24) for single draws",
 ]
-BOUNDS = {"quick": {"sizes": [1, 2, 3], "depth": 5, "keys": 2}, "thorough": {"sizes": [1, 2, 3, 4], "depth": 8, "keys": 3}}
+BOUNDS = {"quick": {"sizes": [1, 2, 3], "depth": 5, "keys": 2, "sweep": 12}, "thorough": {"sizes": [1, 2, 3, 4], "depth": 8, "keys": 3, "sweep": 24}}
 
 
 def cases(tier, seed):
@@ -64,6 +65,17 @@ def cases(tier, seed):
             cfg = dict(kind="nonstatio", nt=4, bt=bt, n=5, bx=bx, dim=2, min_pts=[-1.0, 3.0], max_pts=[2.0, 4.0], tmin=10.0, tmax=12.0,
                        nb=None, bb=None, cartesian=True, key=keys[0])
             out.append(dict(cfg=cfg, depth=B["depth"], mode="eager"))
+    # size sweep: every (temporal, spatial) batch-size pair up to the sweep bound, one draw each (index arithmetic of the
+    # product must be exact for every pair, not only for small or power-of-two sizes)
+    for bt in range(1, B["sweep"] + 1):
+        for bx in range(1, B["sweep"] + 1):
+            if bt <= 3 and bx <= 3:
+                continue
+            dim = 1 + (bt + bx) % 2
+            cfg = dict(kind="nonstatio", nt=bt + 1, bt=bt, n=bx + 2, bx=bx, dim=dim, min_pts=[-1.0] if dim == 1 else [-1.0, 3.0],
+                       max_pts=[2.0] if dim == 1 else [2.0, 4.0], tmin=10.0, tmax=12.0, nb=None if dim == 2 else 2, bb=None if dim == 2 else 2,
+                       cartesian=True, key=keys[0])
+            out.append(dict(cfg=cfg, depth=1, mode="eager"))
     out.sort(key=lambda c: (c["cfg"]["bt"] * c["cfg"]["bx"], c["mode"] != "eager"))
     return out
 
